@@ -91,6 +91,29 @@ class Programs:
         self.snap = summarise(ex2, sn, [Ref(0, 'r')], st, watch_mem=[(0, 'r')])
         self.snap_ex = ex2
         self.snap_fn = sn
+        self.rank = self.find_rank()
+        self.exit_alts = [a for g in self.snap.iteration if not g.events for a in g.alts if a.kind == 'return'] if self.snap.iteration else []
+
+    def find_rank(self):
+        """a loop-carried integer that every retry path of the loop strictly decreases while it is positive"""
+        S = self.snap
+        if S.head is None or not S.iteration:
+            return None
+        stops = [(g, a) for g in S.iteration for a in g.alts if a.kind == 'stop']
+        if not stops:
+            return None
+        for l, (var, ty) in S.carried.items():
+            if ty == 'bool':
+                continue
+            ok = True
+            for g, a in stops:
+                sv = z3.Solver(); sv.set('timeout', 20000); sv.add(self.snap_ex.side)
+                sv.add(a.guard, z3.Not(z3.And(a.locals[l] <= var - 1, var >= 1)))
+                if sv.check() != z3.unsat:
+                    ok = False; break
+            if ok:
+                return (l, var)
+        return None
 
     # ------------------------------------------------------------------ writer
     def setup_writer(self):
@@ -122,6 +145,7 @@ class Programs:
         if not oks:
             raise EngineError('ShmWriter::new has no successful path')
         self.writer_new_paths = [(o.state.pcond(), list(o.state.trace), o.value) for o in outs if o.kind == 'return']
+        self.writer_new_outs = outs
         self.writer_new_vars = (usable, wipe_ok)
         objs = [o.value.p['Ok'].f[0] for o in oks]
         self.writer_obj = objs[0]
@@ -209,23 +233,24 @@ class Scenario:
         return k
 
     def startup(self, usable=True):
-        """the shared-memory events of ShmWriter::new on a usable segment (no wipe): the version store"""
+        """the shared-memory events of ShmWriter::new: all successful paths for a usable (no wipe) or unusable
+        (wipe first) segment, as alternative groups"""
         P = self.P
-        for pc, trace, val in P.writer_new_paths:
-            if 'Ok' not in val.p:
-                continue
-            names = [e.kind for e in trace]
-            if ('wipe' in names) == (not usable):
-                from mirsym.seqlock import Group, Alt
-                evs = [e for e in trace if e.kind in ('load', 'store', 'fence', 'read', 'write', 'cfence')]
-                g = Group(evs)
-                for e in evs:
-                    if 'val' in e.info:
-                        pass
-                g.alts.append(Alt(z3.BoolVal(True), 'return', None, None, {}, {}))
-                self.enc.writer_segment([g], [], pub=None)
-                return
-        raise EngineError('no matching path of ShmWriter::new')
+        from mirsym.seqlock import group_outcomes
+        outs = [o for o in P.writer_new_outs if o.kind == 'return' and 'Ok' in o.value.p and 'Err' not in o.value.p
+                and (('wipe' in [e.kind for e in o.state.trace]) == (not usable))]
+        if not outs:
+            raise EngineError('no matching path of ShmWriter::new')
+        import copy
+        from mirsym.exec import Outcome, State as St
+        shm = ('load', 'store', 'fence', 'read', 'write', 'cfence')
+        outs2 = []
+        for o in outs:
+            s2 = St(dict(o.state.mem), list(o.state.pc), tuple(e for e in o.state.trace if e.kind in shm), {})
+            outs2.append(Outcome(s2, o.value, 'return'))
+        groups = group_outcomes(outs2, -1)
+        usable_v, wipe_ok = P.writer_new_vars
+        self.enc.writer_segment(groups, [(usable_v, z3.BoolVal(usable)), (wipe_ok, z3.BoolVal(True))], pub=None)
 
     # ------------------------------------------------------------------ reader calls
     def reader_call(self, sgen_in, cache_in, R, floor=None):
@@ -234,11 +259,25 @@ class Scenario:
         call = len(self.calls)
         if floor is not None:
             e.floors[call] = floor
-        base = [(P.sgen, sgen_in)] + list(zip(P.cache, cache_in))
+        def mem_pairs(sg, ca):
+            return [(P.sgen, sg)] + list(zip(P.cache, ca))
+
+        def mem_after(conts, sg, ca):
+            """reader object fields after a segment that re-enters the loop (ite over its continuing alternatives)"""
+            nsg, nca = sg, list(ca)
+            for c, a, gp in conts:
+                robj = subst(a.mem[(0, 'r')], gp)
+                co = robj.f[P.i_cache]
+                if not isinstance(co, Rec):
+                    raise EngineError('reader cache is not an opaque record')
+                nsg = z3.If(c, robj.f[P.i_sgen], nsg)
+                nca = [z3.If(c, co.f[i], nca[i]) for i in range(NW)]
+            return nsg, nca
+        cur_sg, cur_ca = sgen_in, list(cache_in)
+        base = mem_pairs(cur_sg, cur_ca)
         rets = []      # (cond, alt, pairs)
         conts = []
         insts = e.reader_segment(S.prefix, base, z3.BoolVal(True), call)
-        first_pos = insts and min([len(e.rev)] + [0]) or 0
         for g, sel, gp in insts:
             for a in g.alts:
                 c = z3.And(sel, subst(a.guard, gp))
@@ -251,11 +290,13 @@ class Scenario:
                 nv = subst(a.locals[l], gp)
                 v = nv if v is None else z3.If(c, nv, v)
             carried[l] = v
+        cur_sg, cur_ca = mem_after(conts, cur_sg, cur_ca)
         iters_used = z3.IntVal(0)
+        exhausted = z3.BoolVal(False)
         for it in range(R):
             if not conts or not S.iteration:
                 break
-            pairs = base + [(var, carried[l]) for l, (var, ty) in S.carried.items()]
+            pairs = mem_pairs(cur_sg, cur_ca) + [(var, carried[l]) for l, (var, ty) in S.carried.items()]
             insts = e.reader_segment(S.iteration, pairs, active, call)
             conts = []
             for g, sel, gp in insts:
@@ -275,13 +316,40 @@ class Scenario:
                 for c, a, gp in conts:
                     v = z3.If(c, subst(a.locals[l], gp), v)
                 newc[l] = v
+            cur_sg, cur_ca = mem_after(conts, cur_sg, cur_ca)
+            # retry-budget exhaustion without unrolling the budget: if repeating this iteration with the SAME observations
+            # (always RC11-consistent: re-reading the same stores) leaves the state unchanged except for the counter, the
+            # reader can stutter until the counter reaches 0 and then leaves through the loop's exit path.
+            if P.rank is not None and P.exit_alts and conts:
+                rl, rvar = P.rank
+                post = mem_pairs(cur_sg, cur_ca) + [(var, newc[l]) for l, (var, ty) in S.carried.items()]
+                stut = []
+                for g, sel, gp in insts:
+                    if not g.events:
+                        continue
+                    gp2 = post + gp[len(pairs):]
+                    for a2 in g.alts:
+                        if a2.kind != 'stop':
+                            continue
+                        same_state = [subst(a2.locals[l], gp2) == newc[l] for l in S.carried if l != rl]
+                        robj2 = subst(a2.mem[(0, 'r')], gp2)
+                        same_state.append(robj2.f[P.i_sgen] == cur_sg)
+                        same_state += [robj2.f[P.i_cache].f[i] == cur_ca[i] for i in range(NW)]
+                        stut.append(z3.And(sel, subst(a2.guard, gp2), *same_state))
+                if stut:
+                    ex_it = e.fresh('exh', z3.BoolSort())
+                    e.add(z3.Implies(ex_it, z3.And(new_active, z3.Or(stut))))
+                    pairs_exit = mem_pairs(cur_sg, cur_ca) + [(var, (z3.IntVal(0) if l == rl else newc[l])) for l, (var, ty) in S.carried.items()]
+                    for ax in P.exit_alts:
+                        rets.append((z3.And(ex_it, subst(ax.guard, pairs_exit)), ax, pairs_exit))
+                    exhausted = z3.Or(exhausted, ex_it)
+                    new_active = z3.And(new_active, z3.Not(ex_it))
             carried, active = newc, new_active
         unfinished = active
         # outcome
         returned = z3.Or([c for c, a, gp in rets])
         is_ok = z3.BoolVal(False); rec = [z3.IntVal(-99)] * NW
-        sgen_out = sgen_in; cache_out = list(cache_in)
-        fresh = z3.BoolVal(False)
+        sgen_out = cur_sg; cache_out = list(cur_ca)
         for c, a, gp in rets:
             robj = subst(a.mem[(0, 'r')], gp)
             val = subst(a.value, gp)
@@ -303,7 +371,7 @@ class Scenario:
             sgen_out = z3.If(c, robj.f[P.i_sgen], sgen_out)
             cache_out = [z3.If(c, co.f[i], cache_out[i]) for i in range(NW)]
         out = dict(returned=returned, ok=is_ok, rec=rec, sgen_out=sgen_out, cache_out=cache_out, unfinished=unfinished,
-                   iters=iters_used, call=call)
+                   iters=iters_used, call=call, exhausted=exhausted)
         self.calls.append(out)
         return out
 
